@@ -211,6 +211,23 @@ Definition pick_pattern (b : bundle) (all_entries : list entry) (x : sexp) : opt
   | _ => None
   end.
 
+(* which of the bundle's pattern objects the harness hands to format_pattern: for (msg id attr) the
+   object reached through bundle.get_message(id) — key (false, id, attr); for (term id attr) the first
+   Term of that id in the resources, which is the bundle's object (true, id, attr) exactly when the
+   bundle registered that term (no earlier entry of the same id), and otherwise an object no
+   reference can reach *)
+Definition pick_top (b : bundle) (x : sexp) : option pkey :=
+  match x with
+  | L [t; A id; at_] =>
+      let attr := match at_ with L [_; A a] => Some a | _ => None end in
+      if is_sym "msg" t then Some (PKey false id attr)
+      else match get_entry_term b id with
+           | Some _ => Some (PKey true id attr)
+           | None => None
+           end
+  | _ => None
+  end.
+
 Definition dec_args (x : sexp) : option fargs :=
   match x with
   | L (_ :: kvs) =>
@@ -243,10 +260,10 @@ Definition run_case (c : sexp) : sexp :=
                 let fuel := fuel_of b p in
                 let fmt := format_pattern true test_function (transform_of tr) (formatter_of fm)
                              (rules_for_locale first_locale) custom_print unescape_total unescape_total_s f64_from_str_exact
-                             b (dec_args args) fuel p [] in
+                             b (dec_args args) fuel (pick_top b entry) p [] in
                 let wrt := write_pattern true test_function (transform_of tr) (formatter_of fm)
                              (rules_for_locale first_locale) custom_print unescape_total unescape_total_s f64_from_str_exact
-                             b (dec_args args) fuel p [] in
+                             b (dec_args args) fuel (pick_top b entry) p [] in
                 Some (fmt, wrt)
             end in
           match run iso_b, run (negb iso_b) with
